@@ -150,7 +150,7 @@ async def run_real(script, ttl):
             obs += [int(k), v[1]._uid]
         obs += [-8] + [int(k) for k in c._segment_store._data.keys()] + [-9]
         for k, ss in c._segment_status_store._data.items():
-            obs += [int(k)]
+            obs += [core.status_key(k)]
             for a, b in ss.status.items():
                 obs += [int(a), b]
             obs += [-1]
